@@ -481,7 +481,7 @@ class GfmSystem(System):
         return Obs(digest=(name, cs, close, tuple(dig)), nontrivial=name in NAMES, violations=viol, transitions=n, validated=n)
 
 
-IMG_FORMS = ['<img src="a.png">', '<img src="b.png" alt="B b">', '<img src="c.png" class="k l" width="10px">', '<img src="d.png" name="dn" align="left">', '<img src="e.png"/>',
+IMG_FORMS = ['<img src="a.png">', '<img src="b.png" alt="B b">', '<img src="c.png" class="k l" width="10px">', '<img src="d.png" height="5em" align="left">', '<img src="e.png"/>',
              '<img src="f.png" alt="  padded   value  ">', '<img src="g.png" alt="tab\tand  two">']
 ADM_FORMS = ['<div class="admonition tip" name="an">\n<p class="title">AT</p>\n<p>abody *e*</p>\n</div>', '<div class="admonition">\n<p>plain body</p>\n</div>']
 
